@@ -374,10 +374,18 @@ def ridge_live(ctx: Ctx):
             b = bind_call(c, g, ct.bound)
             # parameters of the helper that carry the ridge at this call site
             carried = {p for p, a in b.params.items() if _depends(a, tainted, attr, self_name)}
-            inner_taint = _closure(g.node, carried, "\0", "\0")
+            # a parameter that receives the estimator itself (a lifted closure variable, or `est=self`): its
+            # `.reg_W` inside the helper is the hyper-parameter
+            self_in = next((p for p, a in b.params.items() if is_name(a, self_name)), "\0")
+            inner_taint = _closure(g.node, carried, attr if self_in != "\0" else "\0", self_in)
             for x in inner:
                 n_sites += 1
-                ok = _depends(x.args[0], inner_taint, "\0", "\0")
+                mat = x.args[0]
+                if isinstance(mat, ast.Name):
+                    rv = _reaching(g.node, x, mat.id)
+                    if rv is not None:
+                        mat = rv
+                ok = _depends(mat, inner_taint - ({x.args[0].id} if isinstance(x.args[0], ast.Name) and mat is not x.args[0] else set()), attr if self_in != "\0" else "\0", self_in)
                 res.instance("RIDGE-LIVE", f"{f.qname}: {src(c)[:50]} -> {g.name}: {src(x)[:40]}", sample={"line": c.lineno, "helper": g.name, "ridge_carried_by": sorted(carried), "depends_on_ridge": ok})
                 if not ok:
                     ctx.finding("RIDGE-LIVE", f, c, f"`{src(c)[:70]}` reaches `{src(x)[:50]}` in `{g.name}` with no argument that depends on `self.{attr}` (the helper's ridge parameter keeps its default): this block minimises the unpenalised fit while the others minimise fit + ridge, so the sweep is not block-coordinate descent on one objective", construct=f"{f.name}: {src(c)[:60]} solves without self.{attr}")
